@@ -434,6 +434,9 @@ def compare_table(got_rows, exp_rows, names):
                 if not f4_close(g[c], e[c]):
                     return "row %r: %s = %r, the part's map gives %r" % (g["id"], c, g[c], e[c])
             elif g[c] != e[c]:
+                if c == "voice" and not e.get("voice_stated", True):
+                    return ("row %r: voice = %r for a note without voice; the rule (one number above every stated voice "
+                            "of the array) gives %r" % (g["id"], g[c], e[c]))
                 return "row %r: %s = %r, the score states %r" % (g["id"], c, g[c], e[c])
     return None
 
@@ -722,7 +725,17 @@ def run_coq(ctx, name, terms, cases, checker, what):
 # ---- scores
 
 
-def expected_score_rows(specs, parts, opts, uniq):
+def id_prefixes(n, uniq, via):
+    """Prefix of the ids of part i for the entry point `via` (flat list / score / one PartGroup holding
+    all parts / the first two parts inside a PartGroup followed by the others)."""
+    if not uniq:
+        return [""] * n
+    if via == "nested" and n >= 3:
+        return ["P00_P00_", "P00_P01_"] + ["P%02d_" % (i - 1) for i in range(2, n)]
+    return ["P%02d_" % i if n > 1 else "" for i in range(n)]
+
+
+def expected_score_rows(specs, parts, opts, uniq, via="score"):
     """Union of the part tables rescaled to the lcm; returns (rows, L_nonempty, L_all, errors)."""
     per = []
     errs = {}
@@ -737,6 +750,7 @@ def expected_score_rows(specs, parts, opts, uniq):
     for d in ds:
         L = L * d // math.gcd(L, d)
     out = []
+    pref = id_prefixes(len(specs), uniq, via)
     for i, (spec, rows) in enumerate(zip(specs, per)):
         d = spec_divs(spec)
         for r in rows:
@@ -744,8 +758,7 @@ def expected_score_rows(specs, parts, opts, uniq):
             r["onset_div"] = r["onset_div"] * L // d
             r["duration_div"] = r["duration_div"] * L // d
             r["divs_pq"] = L
-            if uniq and len(specs) > 1:
-                r["id"] = "P%02d_%s" % (i, r["id"])
+            r["id"] = pref[i] + r["id"]
             r["_part"] = i
             out.append(r)
     return out, L, errs
@@ -753,8 +766,9 @@ def expected_score_rows(specs, parts, opts, uniq):
 
 def check_score(specs, opts, uniq, via="score"):
     import partitura.utils.music as M
+    import partitura.score as S
     sc, parts = build_score(specs)
-    exp, L, errs = expected_score_rows(specs, parts, opts, uniq)
+    exp, L, errs = expected_score_rows(specs, parts, opts, uniq, via)
     if errs:
         return "map_unavailable", str(errs), None, None
     try:
@@ -762,12 +776,20 @@ def check_score(specs, opts, uniq, via="score"):
             arr = sc.note_array(unique_id_per_part=uniq, **opts)
         elif via == "ensure_score":
             arr = M.ensure_notearray(sc, unique_id_per_part=uniq, **opts)
+        elif via == "partgroup":
+            g = S.PartGroup(group_name="g")
+            g.children = list(parts)
+            arr = g.note_array(unique_id_per_part=uniq, **opts) if len(parts) % 2 else M.ensure_notearray(g, unique_id_per_part=uniq, **opts)
+        elif via == "nested" and len(parts) >= 3:
+            g = S.PartGroup(group_name="g")
+            g.children = list(parts[:2])
+            arr = M.note_array_from_part_list([g] + list(parts[2:]), unique_id_per_part=uniq, **opts)
         else:
             arr = M.ensure_notearray(parts, unique_id_per_part=uniq, **opts)
     except Exception as e:
         return "FAIL", "Score.note_array raised %s: %s" % (type(e).__name__, e), None, None
     rows = array_rows(arr)
-    if not uniq and len(specs) > 1:
+    if len(set(r["id"] for r in exp)) != len(exp):
         # ids of different parts may coincide: make the matching key unique on both sides by position in part
         msg = compare_table_noid(rows, exp, arr.dtype.names)
     else:
@@ -830,7 +852,8 @@ def stage_scores(ctx, n_scores, mp_ok, full_every):
             osets = osets[:5]
         for oi, opts in enumerate(osets):
             uniq = rng.random() < 0.6 if not full else (oi % 2 == 0)
-            via = rng.choice(["score", "score", "ensure_score", "ensure_list"])
+            via = rng.choice(["score", "score", "ensure_score", "ensure_list", "partgroup", "nested"])
+            ctx.count("score:via=" + via)
             status, msg, rows, names = check_score(specs, opts, uniq, via)
             ctx.evaluations += 1
             ctx.count("score_note_array:" + status)
@@ -844,7 +867,7 @@ def stage_scores(ctx, n_scores, mp_ok, full_every):
                 continue
             if len(set(ds)) > 1 or empties:
                 ctx.nontrivial(("score", specs, opts, uniq))
-            if oi < 2:
+            if oi < 2 and not (via == "nested" and len(specs) >= 3):
                 sc, parts = build_score(specs)
                 pterms = []
                 bad = False
